@@ -4,6 +4,8 @@ import (
 	"fmt"
 	"go/token"
 	"go/types"
+	"sort"
+	"strings"
 
 	"golang.org/x/tools/go/ssa"
 
@@ -431,6 +433,7 @@ func checkC17(p *core.Program, r *core.Report) {
 	if nap < 2 {
 		r.Fail(R2, "address appends", "", "expected the filter append and the merge append")
 	}
+	checkAddressProvenance(p, r, proc, R2)
 	// every address of an event is considered: the loops over the event's address list have no early exit
 	var addrParam ssa.Value
 	for _, pa := range proc.Params {
@@ -630,4 +633,241 @@ func resolverCallback(p *core.Program) *ssa.Function {
 		}
 	}
 	return found
+}
+
+
+// checkAddressProvenance (C17.R2): every address that enters an entry - merged into a known one or stored
+// with a new one - is taken from the list the link-local filter built, never from the event's raw list.
+func checkAddressProvenance(p *core.Program, r *core.Report, proc *ssa.Function, R2 string) {
+	isIPSlice := func(t types.Type) bool {
+		st, ok := t.Underlying().(*types.Slice)
+		return ok && core.TypeIs(st.Elem(), "net", "IP")
+	}
+	// elements appended by a variadic append(s, e...)
+	appended := func(c *ssa.Call) []ssa.Value {
+		var out []ssa.Value
+		if len(c.Call.Args) < 2 {
+			return nil
+		}
+		sl, ok := c.Call.Args[1].(*ssa.Slice)
+		if !ok {
+			return []ssa.Value{c.Call.Args[1]} // append(a, b...): a whole slice
+		}
+		al, ok := sl.X.(*ssa.Alloc)
+		if !ok {
+			return []ssa.Value{c.Call.Args[1]}
+		}
+		for _, ref := range *al.Referrers() {
+			if ia, ok := ref.(*ssa.IndexAddr); ok {
+				for _, r2 := range *ia.Referrers() {
+					if st, ok := r2.(*ssa.Store); ok && st.Addr == ssa.Value(ia) {
+						out = append(out, st.Val)
+					}
+				}
+			}
+		}
+		return out
+	}
+	notLL := func(b *ssa.BasicBlock, idx int) bool {
+		i := core.BlockIf(b)
+		if i == nil {
+			return false
+		}
+		v, truth := core.Truth(i.Cond, idx)
+		if call, ok := v.(*ssa.Call); ok && core.CalleeName(&call.Call) == "(net.IP).IsLinkLocalUnicast" && !truth {
+			return true
+		}
+		if bo, ok := v.(*ssa.BinOp); ok && (bo.Op == token.EQL || bo.Op == token.NEQ) && core.IsNilConst(bo.Y) {
+			if call, ok := bo.X.(*ssa.Call); ok && core.CalleeName(&call.Call) == "(net.IP).To4" {
+				return truth == (bo.Op == token.NEQ)
+			}
+		}
+		return false
+	}
+	// roots of a []net.IP value: "filtered" appends, raw parameters of the callback, or something unknown
+	var elemSlices func(el ssa.Value, depth int) ([]ssa.Value, bool)
+	type env map[*ssa.Parameter]ssa.Value
+	var roots func(v ssa.Value, e env, depth int, out map[string]token.Pos, seen map[ssa.Value]bool)
+	roots = func(v ssa.Value, e env, depth int, out map[string]token.Pos, seen map[ssa.Value]bool) {
+		if v == nil || seen[v] {
+			return
+		}
+		seen[v] = true
+		if depth == 0 {
+			out["unknown: derivation too deep"] = v.Pos()
+			return
+		}
+		switch x := v.(type) {
+		case *ssa.Const, *ssa.MakeSlice:
+			return
+		case *ssa.Phi:
+			for _, ed := range x.Edges {
+				roots(ed, e, depth-1, out, seen)
+			}
+		case *ssa.Slice:
+			roots(x.X, e, depth-1, out, seen)
+		case *ssa.ChangeType:
+			roots(x.X, e, depth-1, out, seen)
+		case *ssa.Parameter:
+			if a, ok := e[x]; ok {
+				roots(a, nil, depth-1, out, seen)
+				return
+			}
+			if x.Parent() == proc || core.NestedIn(x.Parent(), proc) {
+				out["raw"] = x.Pos()
+			} else {
+				out["unknown: parameter "+x.Name()+" of "+x.Parent().Name()] = x.Pos()
+			}
+		case *ssa.Call:
+			if isBuiltin(x, "append") {
+				if core.Guarded(x, notLL) {
+					return // the filter append: elements passed the link-local test
+				}
+				roots(x.Call.Args[0], e, depth-1, out, seen)
+				for _, el := range appended(x) {
+					if isIPSlice(el.Type()) {
+						roots(el, e, depth-1, out, seen)
+					} else {
+						// a single element: where does it come from?
+						if sls, ok := elemSlices(el, 4); ok {
+							for _, sl := range sls {
+								roots(sl, e, depth-1, out, seen)
+							}
+							continue
+						}
+						out["unknown: appended element "+el.Name()] = x.Pos()
+					}
+				}
+				return
+			}
+			if callee := x.Call.StaticCallee(); callee != nil && p.PkgShort(callee) == "mdns" && callee.Blocks != nil {
+				ne := env{}
+				for i, pa := range callee.Params {
+					if i < len(x.Call.Args) {
+						ne[pa] = x.Call.Args[i]
+					}
+				}
+				core.EachInstr(callee, func(in ssa.Instruction) {
+					if ret, ok := in.(*ssa.Return); ok {
+						for i := range ret.Results {
+							if res := core.ResultOf(ret, i); isIPSlice(res.Type()) {
+								roots(res, ne, depth-1, out, seen)
+							}
+						}
+					}
+				})
+				return
+			}
+			out["unknown: result of "+core.CalleeName(&x.Call)] = x.Pos()
+		case *ssa.UnOp:
+			// load of a local spilled to memory
+			if al, ok := x.X.(*ssa.Alloc); ok {
+				for _, ref := range *al.Referrers() {
+					if st, ok := ref.(*ssa.Store); ok && st.Addr == ssa.Value(al) {
+						roots(st.Val, e, depth-1, out, seen)
+					}
+				}
+				return
+			}
+			out["unknown: "+x.String()] = x.Pos()
+		default:
+			out["unknown: "+v.String()] = v.Pos()
+		}
+	}
+	// elemSlices: the slices a single address value was drawn from (range element, possibly spilled to a heap cell)
+	elemSlices = func(el ssa.Value, depth int) ([]ssa.Value, bool) {
+		if depth == 0 {
+			return nil, false
+		}
+		switch x := el.(type) {
+		case *ssa.UnOp:
+			if ia, ok := x.X.(*ssa.IndexAddr); ok {
+				return []ssa.Value{ia.X}, true
+			}
+			if al, ok := x.X.(*ssa.Alloc); ok {
+				var out []ssa.Value
+				for _, ref := range *al.Referrers() {
+					if st, ok := ref.(*ssa.Store); ok && st.Addr == ssa.Value(al) {
+						sl, ok := elemSlices(st.Val, depth-1)
+						if !ok {
+							return nil, false
+						}
+						out = append(out, sl...)
+					}
+				}
+				return out, len(out) > 0
+			}
+		case *ssa.Index:
+			return []ssa.Value{x.X}, true
+		case *ssa.Phi:
+			var out []ssa.Value
+			for _, e := range x.Edges {
+				sl, ok := elemSlices(e, depth-1)
+				if !ok {
+					return nil, false
+				}
+				out = append(out, sl...)
+			}
+			return out, true
+		case *ssa.Extract:
+			// value of a range-over-slice via Next is not used for slices; fallthrough
+		}
+		return nil, false
+	}
+	verdict := func(key string, pos token.Pos, out map[string]token.Pos) {
+		var ks []string
+		for k := range out {
+			ks = append(ks, k)
+		}
+		sort.Strings(ks)
+		switch {
+		case len(ks) == 0:
+			r.OK(R2, key, p.Pos(pos), "taken from the list built by the link-local filter")
+		case out["raw"] != token.NoPos || ks[0] == "raw":
+			r.Fail(R2, key, p.Pos(pos), "the addresses come from the event's raw address list, not from the list the IPv6-link-local filter built: fe80:: addresses enter the entry")
+		default:
+			r.Fail(R2, key, p.Pos(pos), "the origin of the addresses cannot be traced to the link-local filter ("+strings.Join(ks, "; ")+")")
+		}
+	}
+	n := 0
+	eachInstrWithCallees(p, proc, "mdns", 2, func(in ssa.Instruction) {
+		// merge append into entry.Addresses
+		if c, ok := in.(*ssa.Call); ok && isBuiltin(in, "append") && isIPSlice(c.Type()) {
+			if f, _ := core.LoadedField(c.Call.Args[0]); f != nil && f.Name() == "Addresses" {
+				out := map[string]token.Pos{}
+				for _, el := range appended(c) {
+					if isIPSlice(el.Type()) {
+						roots(el, nil, 10, out, map[ssa.Value]bool{})
+					} else if sls, ok := elemSlices(el, 4); ok {
+						for _, sl := range sls {
+							roots(sl, nil, 10, out, map[ssa.Value]bool{})
+						}
+					} else {
+						out["unknown: "+el.String()] = el.Pos()
+					}
+				}
+				n++
+				verdict("merged addresses come from the filtered list", in.Pos(), out)
+			}
+			return
+		}
+		// Addresses of a new entry
+		if f, base, v := core.StoredField(in); f != nil && f.Name() == "Addresses" && isIPSlice(v.Type()) {
+			if _, fresh := core.Canon(base).(*ssa.Alloc); !fresh {
+				return
+			}
+			if c, ok := v.(*ssa.Call); ok && isBuiltin(c, "append") {
+				if g, _ := core.LoadedField(c.Call.Args[0]); g != nil && g.Name() == "Addresses" {
+					return // the merge append's write-back
+				}
+			}
+			out := map[string]token.Pos{}
+			roots(v, nil, 10, out, map[ssa.Value]bool{})
+			n++
+			verdict("addresses of a new entry come from the filtered list in "+p.FnName(in.Parent()), in.Pos(), out)
+		}
+	})
+	if n < 2 {
+		r.Fail(R2, "address provenance sites", "", fmt.Sprintf("expected the merge append and the new entry's Addresses store, found %d", n))
+	}
 }
